@@ -38,8 +38,11 @@ class Timer:
             # the clock gives expire_time == now, and the timer must then
             # fire at once instead of silently never
             while self.armed:
-                self.armed = False
                 yield self.env.timeout(self.expire_time - env.now)
+                # the expiry is consumed only once it has been reached: a
+                # sleeper that is interrupted by restart() leaves the flag to
+                # its successor
+                self.armed = False
                 if not self.stopped:
                     self.timeout_callback(*self.args, **self.kwargs)
                     if self.auto_restart:
